@@ -5,8 +5,8 @@ from . import util, runner, model, emit
 
 
 def cfg_tag(cfg):
-    return "%s%s_%s" % (cfg["flavour"], "".join(cfg.get("flexargs", ())).replace("-", "")
-                        .replace("=", ""), cfg.get("cc", "san"))
+    return "%s%s_%s%s" % (cfg["flavour"], "".join(cfg.get("flexargs", ())).replace("-", "")
+                          .replace("=", ""), cfg.get("cc", "san"), cfg.get("tagx", ""))
 
 
 def with_input(case, inp):
@@ -51,6 +51,10 @@ def run_case(flex, case, configs, inputs, workdir, rng=None, expect_build=None,
         c2["opts"]["flavour"] = cfg["flavour"]
         for k, v in cfg.get("opts", {}).items():
             c2["opts"][k] = v
+        for k in ("driver", "wrap"):
+            # a configuration may deliver the same input another way (e.g. from memory)
+            if k in cfg:
+                c2[k] = cfg[k]
         erng = util.Rng(case["seed"], "emit") if rng is None else rng
         built = runner.build_scanner(flex, c2, cfg["flavour"], d, cfg.get("flexargs", ()),
                                      cfg.get("cc", "san"), erng)
